@@ -55,6 +55,17 @@ repaired tree, yet two postconditions of `clone` could not be proved until the
 engine knew that a map with a key is not empty; with that fact the changed
 function verifies.
 
+A sixth-session round (C03-7, C07-7, C14-7, C17-7, C19-7: enum text narrowed
+through `Atoi`, a field-by-field merge in `params.set`, the gRPC-web trailer
+filtered against the sent headers before the `Trailer:` prefix is stripped,
+`growcap` growing once by 1.25x, a wildcard selector also covering the method it
+is one component below) was caught in full at first run. C17-7 removed the loop
+of `growcap` and was first reported as "loop 1 does not exist"; the engine now
+drops clauses of loops that no longer exist (they are only ever assumed at their
+own loop head, so this removes assumptions) and the report is the postcondition
+`growcap/post[atleast]` with `sat`. A closed-form rewrite of a loop that keeps the
+result is therefore no longer an alarm.
+
 Misses of the fifth session and what they prompted (every one is caught now):
 the float narrowing in `parseParam` (C03-1: `conv` reports `float64 -> float32`),
 `quote` (C03-2), body presence (C03-3), the comma in `isPath` (C03-4: the function
